@@ -2,6 +2,7 @@
 //! Usage: fcgi-harness <property> <quick|thorough> <seed> <outdir> [--replay <file>] [--widen]
 mod util;
 mod exec;
+mod mock;
 mod c15;
 mod c16;
 mod c17;
@@ -10,6 +11,7 @@ mod c20;
 mod gen;
 mod reqfam;
 mod strfam;
+mod asyncfam;
 
 use util::*;
 
@@ -42,6 +44,8 @@ fn main() {
         "C01" => reqfam::run_c01(&mut ctx),
         "C06" => reqfam::run_c06(&mut ctx),
         "C02" => strfam::run_c02(&mut ctx),
+        "C09" => asyncfam::run_c09(&mut ctx),
+        "C10" => asyncfam::run_c10(&mut ctx),
         "C05" => strfam::run_c05(&mut ctx),
         "C18" => strfam::run_c18(&mut ctx),
         "C03" => {
